@@ -305,6 +305,67 @@ def run_hist1d_scatter_plot(rep, tier, rng):
             rep.validated()
 
 
+def run_same_array_layers(rep, tier, rng):
+    """two Layers holding the very same Array, with different operations: each is reduced with its own; weights that hold
+    undefined values are an input like any other (left as they are)"""
+    import matplotlib.pyplot as plt
+    import numpy as np
+    import osyris
+    Layer = osyris.core.layer.Layer
+    x = osyris.Array(np.array([0.5, 0.5, 2.5, 3.5, 0.5, 1.5]), unit="m")
+    y = osyris.Array(np.array([0.5, 0.5, 1.5, 1.5, 2.5, 3.5]), unit="s")
+    w = osyris.Array(np.array([1.0, 2.0, 4.0, 8.0, 16.0, 32.0]), unit="K", name="w")
+    tot_sum = float(w.values.sum())
+    tot_mean = tot_sum - 0.5 * float(w.values[0] + w.values[1])       # points 0 and 1 share a bin
+    for ops in (("mean", "sum"), ("sum", "mean"), ("mean", None), (None, "mean"), ("mean", "mean")):
+        for call_op in (None, "sum", "mean"):
+            layers = [Layer(w, **({"operation": o} if o else {})) for o in ops]
+            rep.case(klass=("histogram2d-same-array", ops, call_op))
+            d = None
+            try:
+                with contextlib.redirect_stdout(io.StringIO()):
+                    p = osyris.histogram2d(x, y, *layers, resolution=4, xmin=0.0, xmax=4.0, ymin=0.0, ymax=4.0, plot=False, **({"operation": call_op} if call_op else {}))
+                for li, o in enumerate(ops):
+                    eff = o or call_op or "sum"
+                    tot = float(np.ma.filled(p.layers[li]["data"], 0.0).sum())
+                    want = tot_sum if eff == "sum" else tot_mean
+                    if abs(tot - want) > 1e-9:
+                        d = f"precedence: layer {li + 1} (operation {o!r}, call {call_op!r}) adds up to {tot}, expected {want} ({eff})"
+                        break
+                if d is None and not np.array_equal(w.values, [1.0, 2.0, 4.0, 8.0, 16.0, 32.0]):
+                    d = "arguments: the Array shown by both layers was modified"
+            except Exception as e:
+                d = f"raises: {type(e).__name__}: {e}"
+            if d:
+                rep.mismatch({"module": "LayerOptions", "fn": "histogram2d", "field": "same-array-" + d.split(":")[0]}, f"two layers of one Array, operations {ops}, call-level {call_op}: {d}",
+                             case={"ops": ops, "call": call_op}, module="layers")
+            else:
+                rep.validated()
+    # histogram1d with weights that hold an undefined value, at layer and at call level
+    vals = osyris.Array(np.array([0.5, 1.5, 2.5, 3.5, 0.5, 1.5, 2.5, 3.5]), unit="m")
+    for level in ("layer", "call"):
+        wn = osyris.Array(np.array([1.0, np.nan, 2.0, np.inf, 1.0, 1.0, 1.0, 1.0]), unit="g", name="wn")
+        keep = wn.values.copy()
+        rep.case(klass=("histogram1d-nan-weights", level))
+        d = None
+        try:
+            with contextlib.redirect_stdout(io.StringIO()), np.errstate(all="ignore"):
+                if level == "layer":
+                    osyris.histogram1d(Layer(vals, weights=wn), bins=4)
+                else:
+                    osyris.histogram1d(Layer(vals), bins=4, weights=wn)
+            if not np.array_equal(wn.values, keep, equal_nan=True):
+                d = f"arguments: the weights given at {level} level were modified ({keep.tolist()} -> {wn.values.tolist()})"
+        except Exception as e:
+            d = f"raises: {type(e).__name__}: {e}"
+        finally:
+            plt.close("all")
+        if d:
+            rep.mismatch({"module": "LayerOptions", "fn": "histogram1d", "field": "nan-weights-" + d.split(":")[0]}, f"histogram1d: {d}", case={"level": level}, module="layers")
+        else:
+            rep.validated()
+
+
 def run_map_scatter_layer(rep, tier, rng):
     """a scatter layer on a map (sink particles over a slice): its colour and size options come from the layer, else from the
     call, and the arguments are left as they were"""
@@ -499,6 +560,7 @@ def run_c19(rep, tier, seed):
     run_orientation_purity(rep, tier, rng)
     run_norm_instances(rep, tier, rng)
     run_map_scatter_layer(rep, tier, rng)
+    run_same_array_layers(rep, tier, rng)
     rep.sample({"history": chosen[len(one) + 1]["hist"], "layer_level_options": chosen[len(one) + 1]["layer"]}, limit=2)
     rep.part("replay", histories=len(chosen), of_length_1=len(one), of_length_2=len(chosen) - len(one), emitted=len(recs))
     rep.cov["rule"] = ("LayerOptions.tla enumerates every history of up to 2 calls of map / histogram2d over the lattice of call-level option sets (each of mode, norm, vmin, vmax, operation, extra keyword "
